@@ -528,17 +528,28 @@ class AppClock(Clock, metaclass=MetaAppClock):
 class ClockScheduler():
     def __init__(self):
         self.queue = tsq.TaskQueue()
+        self._pending = dict()
 
     def run(self):
         while not self.queue.empty():
             time, clock_task = self.queue.pop()
+            key = (clock_task.clock, clock_task.task)
+            if self._pending.get(key) is clock_task:
+                del self._pending[key]
             clock_task._wakeup(time)
 
     def add(self, time, clock_task):
+        # As in the real-time clocks' queues, a task has one entry per clock.
+        key = (clock_task.clock, clock_task.task)
+        prev = self._pending.get(key)
+        if prev is not None and prev is not clock_task:
+            self.queue.remove(prev)
+        self._pending[key] = clock_task
         self.queue.add(time, clock_task)
 
     def reset(self):
         self.queue.clear()
+        self._pending = dict()
 
     def retime(self, clock):
         # A tempo change moves the pending tasks of that clock in seconds.
